@@ -141,6 +141,7 @@ def sys_pred_suite(name, pred, quick, thorough, length=60, extra=None):
     """pipeline runs for which there is no model (fault placement below the observable wrapper): only the trace
     predicate - which is model-independent - is evaluated; M is empty by construction"""
     su = _sys_suite(name, pred, quick, thorough, length, extra)
+    su["pred_only"] = True
     su["eval"] = ("Definition M : list (nat * nat) := [].\nPrint M.\n"
                   "Definition V := Eval vm_compute in trace_violations %s cases 0.\nPrint V." % pred)
     return su
@@ -150,6 +151,7 @@ def vsys_pred_suite(name, pred, quick, thorough, length=50, extra=None):
     """cron / volatile pipeline runs with transient faults of the store's Pop: no model follows faults in that configuration;
     the trace predicates (model-independent) are evaluated, M is empty by construction"""
     su = vsys_suite(name, pred, quick, thorough, length, extra)
+    su["pred_only"] = True
     su["eval"] = ("Definition M : list (nat * nat) := [].\nPrint M.\n"
                   "Definition V := Eval vm_compute in vtrace_violations %s cases 0.\nPrint V." % pred)
     return su
@@ -173,7 +175,7 @@ def hook_conc_suite(name, quick, thorough, length=12):
     """C07 'for concurrent mutators checked at quiescence': a sequential prefix, then 2-3 goroutines mutate shared tasks
     through the observable wrapper at once (race-detector build); the predicate is evaluated on the final observation"""
     return {
-        "name": name, "cmd": ["hook", "--concurrent", "--len", str(length)], "race": True,
+        "name": name, "cmd": ["hook", "--concurrent", "--len", str(length)], "race": True, "pred_only": True,
         "header": "From GK Require Import SysCheck.\nOpen Scope string_scope.\nOpen Scope list_scope.\nOpen Scope Z_scope.",
         "hist_type": "bool * hobs",
         "eval": "Definition M : list (nat * nat) := [].\nPrint M.\n"
@@ -278,7 +280,8 @@ SUITES = {
                        # the dispatch context is cancelled between the fetch and the start of the work function: the run ends
                        # cancelled without starting. The monitor has no label for that: the predicate alone is evaluated
                        sys_pred_suite("c06-sys-cancel-in-fetch", "c06_ok", {"n": 25, "shards": 4}, {"n": 150, "shards": 16},
-                                      extra=["--cancel-in-fetch"])]},
+                                      extra=["--cancel-in-fetch"])],
+            "rule": "three suites: pipeline schedules over the in-memory and over the ent repository (work functions ending nil / error / DeadlineExceeded / panic with string or non-string value / unknown work id / cancelled dispatcher, arbitrary completion order, 1-16 workers), held to the monitor; and a predicate-only suite in which the dispatch context is cancelled between the fetch and the start of the work function (not counted in traces_validated_against_impl); distinct = distinct sha1 of the printed label trace"},
     "C20": {"suites": [sys_suite("c20-sys", "c20_ok", {"n": 25, "shards": 10}, {"n": 200, "shards": 16}, extra=["--faults"]),
                        sys_suite("c20-sys-ent", "c20_ok", {"n": 25, "shards": 3}, {"n": 100, "shards": 16}, extra=["--impl", "ent", "--faults"]),
                        # every placement of one fault (quick) and of two faults (thorough) over the scheduler's calls of base scenarios
@@ -291,7 +294,7 @@ SUITES = {
                        # cron / volatile configuration: the store's Pop fails transiently inside MarkAsDispatched
                        vsys_pred_suite("c20-vsys-faults", "vall_ok", {"n": 25, "shards": 4}, {"n": 60, "shards": 16},
                                        extra=["--vfaults"])],
-            "rule": "two suites: random multi-fault schedules (a sixth of the scheduler's calls fails before or after taking effect, alternately with a plain error and a wrapped context.Canceled; failing look-ups inside the hook; dispatches cancelled while waiting for a worker) and, for seeded base scenarios, EVERY placement of one fault (thorough: of two faults) over the scheduler's calls before quiescence, one run per placement; every run ends with a fault-free quiescence phase; distinct = distinct sha1 of the printed label trace"},
+            "rule": "five suites. Held to the monitor: random multi-fault schedules over the in-memory and over the ent repository (a sixth of the scheduler's calls fails before or after taking effect, alternately with a plain error and a wrapped context.Canceled; failing look-ups inside the hook; dispatches cancelled while waiting for a worker) and, for seeded base scenarios, EVERY placement of one fault (thorough: of two faults) over the scheduler's calls before quiescence, one run per placement. Predicate only (no model of the placement; not counted in traces_validated_against_impl): failures of the CORE repository's MarkAsDispatched below the observable wrapper, and transient Pop failures of the store in the cron / volatile configuration. Every run ends with a fault-free quiescence phase; distinct = distinct sha1 of the printed label trace"},
     "C07": {"suites": [
         hook_suite("c07-hook", {"n": 40, "shards": 8}, {"n": 400, "shards": 16}),
         hook_suite("c07-hook-faults", {"n": 30, "shards": 4}, {"n": 300, "shards": 16}, extra=["--faults"]),
